@@ -100,6 +100,7 @@ def swarm(rng):
         "weights": {o: rng.choice([1, 2, 3]) for o in en},
         "n_ops": rng.randint(5, 40),
         "absent_rate": rng.choice([0.0, 0.05, 0.15, 0.3]),
+        "wide_rate": rng.choice([0.0, 0.15, 0.4]),
         "faults": rng.random() < 0.6,      # refused operations in mid-history enabled?
     }
 
@@ -173,6 +174,16 @@ class Hist:
         model = self.m[h]
         info = np.iinfo(self.info[h]["dt"])
         keys = list(model)
+        dt = self.info[h]["dt"]
+        if dt not in ("int64", "uint64") and keys and rng.random() < self.P.get("wide_rate", 0.0):
+            # a value the key dtype cannot represent, biased to be congruent to a key modulo 2**bits (a cast of
+            # the query to the key dtype would wrap it onto that key)
+            span = int(info.max) - int(info.min) + 1
+            c = rng.choice(keys) + span * rng.choice([1, -1, 2, -2])
+            if rng.random() < 0.3:
+                c = rng.choice([int(info.max) + rng.randint(1, 300), int(info.min) - rng.randint(1, 300)])
+            if not (int(info.min) <= c <= int(info.max)):
+                return c
         for _ in range(30):
             r = rng.random()
             if r < 0.5 and keys:
@@ -217,10 +228,12 @@ class Hist:
         if dt == "uint64":
             op["q_dtype"] = "uint64"
             return
+        ki = np.iinfo(dt)
+        wide = any(not (int(ki.min) <= x <= int(ki.max)) for x in op.get("keys", []))
         r = rng.random()
         if r < 0.3 and n > 0:
             op["as_list"] = True
-        elif r < 0.65:
+        elif r < 0.65 and not wide:
             op["q_dtype"] = dt
 
     def pick(self, pred=lambda i: True):
